@@ -488,6 +488,8 @@ impl<const N: usize, P: Pad> Env<N, P> {
 pub struct FeedIter<'a, P: Pad> {
     pub items: &'a mut [Option<TokG<P>>],
     pub pos: usize,
+    /// 0 exact, 1 = (0, None), 2 = (0, Some(much more)), 3 = (half, None): all legal hints
+    pub hint: u8,
 }
 impl<P: Pad> Iterator for FeedIter<'_, P> {
     type Item = TokG<P>;
@@ -499,7 +501,12 @@ impl<P: Pad> Iterator for FeedIter<'_, P> {
     }
     fn size_hint(&self) -> (usize, Option<usize>) {
         let r = self.items.len() - self.pos.min(self.items.len());
-        (r, Some(r))
+        match self.hint {
+            1 => (0, None),
+            2 => (0, Some(2 * r + 7)),
+            3 => (r / 2, None),
+            _ => (r, Some(r)),
+        }
     }
 }
 
@@ -653,7 +660,13 @@ fn exec_inner<const N: usize, P: Pad>(buf: &mut Buf<N, P>, op: &Op, env: &mut En
         }
         Op::Extend(_) => {
             let mut items: Vec<Option<TokG<P>>> = mem::take(&mut env.args).into_iter().map(Some).collect();
-            let it = FeedIter { items: &mut items[..], pos: 0 };
+            let it = FeedIter { items: &mut items[..], pos: 0, hint: 0 };
+            cb!(buf.extend(it));
+            Ret::Unit
+        }
+        Op::ExtendHinted(_, hint) => {
+            let mut items: Vec<Option<TokG<P>>> = mem::take(&mut env.args).into_iter().map(Some).collect();
+            let it = FeedIter { items: &mut items[..], pos: 0, hint: *hint };
             cb!(buf.extend(it));
             Ret::Unit
         }
@@ -1727,9 +1740,10 @@ fn forget_leaked(model: &[(u64, u32)]) {
     let keep: std::collections::HashSet<u64> = model.iter().map(|x| x.0).collect();
     with_ledger(|l| {
         let mut live = 0;
+        let base = l.base;
         for (i, r) in l.recs.iter_mut().enumerate().skip(1) {
             if r.st == St::Live {
-                if keep.contains(&(i as u64)) || r.epoch == PINNED {
+                if keep.contains(&(base + i as u64)) || r.epoch == PINNED {
                     live += 1;
                 } else {
                     r.st = St::Leaked;
